@@ -798,3 +798,20 @@ Proof.
   - eapply Hnames; eauto.
   - eapply Forall_forall in HF; eauto. exact HF.
 Qed.
+
+(* the two hypotheses on the wiring are needed: with two classes on one slot a warm lookup returns the other class's
+   instance; with a slot outside the cache area the write lands outside it *)
+Lemma shared_slot_breaks_lookup : exists cn wiring D h,
+  ~ NoDup (map fst wiring) /\
+  exists T' r, run_history cn wiring (cold_type 2 D) h = Some (T', r) /\ r <> map (fun kc => dspec cn D (snd kc)) h.
+Proof.
+  exists (fun c => if Nat.eqb c 5 then "A" else "B")%string, [(0, 5); (0, 7)], [("A", 1); ("B", 2)]%string,
+         [(KInstance, 5); (KInstance, 7)].
+  split.
+  - intro H. inversion H as [|? ? Hn _]; subst. apply Hn. simpl; auto.
+  - eexists. eexists. split; [vm_compute; reflexivity | vm_compute; discriminate].
+Qed.
+
+Lemma slot_outside_cache_corrupts : exists cn wiring D c,
+  lookup cn wiring KInstance c (cold_type 1 D) = RCrash.
+Proof. exists (fun _ => "A"%string), [(1, 5)], [("A"%string, 1)], 5. vm_compute. reflexivity. Qed.
